@@ -6,6 +6,8 @@ import SJ.Props.C01
 import SJ.Props.C09
 import SJ.Proofs.ParsedFinite
 import SJ.Proofs.LexTopParser
+import SJ.Props.C03
+import SJ.Proofs.TypedSerClosed
 /-!
 # C04 — serialise then deserialise is the identity (the `Value` clause)
 
@@ -419,5 +421,77 @@ example : Spec.WF.floatRT (specCfg { fr := true }) ext0 0x3ff8000000000000 = tru
   SJ.Proofs.LexTopParser.floatRT_fr_at (specCfg { fr := true }) rfl rfl ext0 0x3ff8000000000000
     (ext0_ok.ryu64_number _ (by decide)) ⟨by decide, by decide, by decide⟩ (by decide +kernel)
 
+/-! ## the typed clause: serialise a typed value, read it back with the typed deserializer -/
+
+/-- **C04 (typed values, compact) — partial.** For every schema `s` of the fragment `agreeFragT` — bool, the twelve integer
+    types (128-bit included, any value of the type), char, `String`, byte buffers, unit / unit structs, `Option`, newtype
+    structs, `Vec`, tuples, maps with every key kind (string, the twelve integer widths, bool, char, unit-variant enums),
+    structs, externally tagged enums with unit / newtype / non-empty tuple / struct variants — and every well-formed value
+    `v` of that type (`wfTV`: the value
+    inhabits the type, strings valid UTF-8, `char`s scalar values, field / variant / key names distinct valid UTF-8, and
+    not the documented exception: no `Some(x)` whose `x` serialises as JSON `null`) whose text nests at most 127 deep
+    (or the limit is off): `to_string` — the calls `Serialize` makes (`progOf s v`) run through the serializer model —
+    succeeds, and `from_str::<T>` of that text (typed deserializer + `end()`, any source) returns `v`.
+    By composition: C03 (`c03_compact`: the text is `render` of the program's image), `image_progOf` (that image is the
+    image of the `Value` `valueOf s v`), `fromValue_valueOf` (`from_value(to_value(v)) = v`) and the text leg of C16
+    (`agree_gen`: the typed deserializer on the printed `Value` returns what `from_value` returns).
+    Missing (named): the pretty formatter (the text leg is proved for the compact layout only; the correspondence op `rtm`
+    runs both formatters); `f64` / `f32` fields (the float step: `FloatsRoundTrip` through the typed number scanner);
+    `Value` members (the text leg covers `Value` targets, but `wfTV` does not yet carry `WFValue` for them) and `IgnoredAny`
+    (no `Serialize` impl); zero-length tuple variants (`{"V":[]}` is read back by the text deserializer — `from_value` refuses it, the composition breaks);
+    `arbitrary_precision`. The `Serialize` impls themselves are serde's / serde_derive's (assumption; the correspondence
+    op `rtm` replays exactly these calls against the crate). -/
+theorem c04_typed_partial (mcfg : Cfg) (_hap : mcfg.ap = false) (src : Src) (ext : Ext) (hext : ExtOK ext)
+    (s : Schema) (hs : Proofs.Typed.agreeFragT s = true) (v : TVal) (hw : Model.TypedSer.wfTV s v = true)
+    (hd : mcfg.limitOff = true ∨ depthJV (Model.TypedSer.valueOf s v) ≤ 127) :
+    ∃ bufs, serCompact ext (Model.TypedSer.progOf s v) = .ok bufs ∧
+      Model.Typed.deTypedTop { cfg := mcfg, src := src } s bufs.flatten = .ok v := by
+  have himg := Proofs.TypedSer.image_progOf ext hext s v hw
+  have hpw := Proofs.TypedSer.progOf_wf s v hw
+  cases hser : serCompact ext (Model.TypedSer.progOf s v) with
+  | error e =>
+    have := ((SJ.Props.C03.c03_error_iff ext hext _ e).1).1 hser
+    rw [himg] at this; cases this
+  | ok bufs =>
+    refine ⟨bufs, rfl, ?_⟩
+    obtain ⟨d, hd', htext, _⟩ := SJ.Props.C03.c03_compact ext hext _ hpw bufs hser
+    rw [himg] at hd'; cases hd'
+    rw [htext]
+    have hvok := Proofs.TypedSer.vok_valueOf s v hs hw
+    have hfv := Proofs.TypedSer.fromValue_valueOf { po := mcfg.po, fr := mcfg.fr, ap := false } rfl {} s v hs hw
+    have hag := Proofs.Typed.agree_gen ext hext (env := { cfg := mcfg, src := src }) rfl
+      { po := mcfg.po, fr := mcfg.fr, ap := false } rfl {} Proofs.TypedSer.RT Proofs.TypedSer.closed_RT
+      (fun h => by cases h) (Model.Typed.Schema.size s + 1) s (by omega) hs 0 (Model.TypedSer.valueOf s v) hvok
+      (by rcases hd with h | h
+          · exact .inl h
+          · exact .inr (by omega)) ⟨v, hw, rfl⟩ [] 0 (.inl rfl)
+    rw [hfv] at hag
+    simp only [List.append_nil] at hag
+    unfold Proofs.Typed.T at hag
+    unfold Model.Typed.deTypedTop
+    rw [hag]
+    simp [Model.Stream.skipWs]
+
+/-- `struct S { a: u8, b: Option<String>, e: E }` with `enum E { U, V(u8, String) }`: `{"a":7,"b":null,"e":{"V":[1,"x\n"]}}` -/
+def exSchema : Schema :=
+  .struct_ [([0x61], .int .u8), ([0x62], .option .string), ([0x65], .enum_ [([0x55], .unit), ([0x56], .tuple [.int .u8, .string])])] false
+def exTV : TVal := .struct_ [.int 7, .none, .variant 1 (.seq [.int 1, .str [0x78, 0x0a]])]
+
+example : Proofs.Typed.agreeFragT exSchema = true ∧ Model.TypedSer.wfTV exSchema exTV = true ∧
+    depthJV (Model.TypedSer.valueOf exSchema exTV) ≤ 127 := by decide
+
+example : (serCompact ext0 (Model.TypedSer.progOf exSchema exTV)).map List.flatten = .ok
+    [0x7b, 0x22, 0x61, 0x22, 0x3a, 0x37, 0x2c, 0x22, 0x62, 0x22, 0x3a, 0x6e, 0x75, 0x6c, 0x6c, 0x2c, 0x22, 0x65, 0x22, 0x3a,
+     0x7b, 0x22, 0x56, 0x22, 0x3a, 0x5b, 0x31, 0x2c, 0x22, 0x78, 0x5c, 0x6e, 0x22, 0x5d, 0x7d, 0x7d] := rfl
+
+example : ∃ bufs, serCompact ext0 (Model.TypedSer.progOf exSchema exTV) = .ok bufs ∧
+    Model.Typed.deTypedTop { cfg := {}, src := .reader } exSchema bufs.flatten = .ok exTV :=
+  c04_typed_partial {} rfl .reader ext0 ext0_ok exSchema (by decide) exTV (by decide) (.inr (by decide))
+
+/-- the exception is needed: `Some(())` serialises as `null` and reads back as `None` -/
+example : Model.TypedSer.wfTV (.option .unit) (.some .unit) = false ∧
+    (serCompact ext0 (Model.TypedSer.progOf (.option .unit) (.some .unit))).map List.flatten = .ok [0x6e, 0x75, 0x6c, 0x6c] ∧
+    (match Model.Typed.deTypedTop {} (.option .unit) [0x6e, 0x75, 0x6c, 0x6c] with | .ok t => t == .none | _ => false) = true :=
+  ⟨by decide, rfl, by decide +kernel⟩
 
 end SJ.Props.C04
